@@ -1,1 +1,179 @@
-// harnesses for this module (included by the isomer_erbium_verif hook)
+// Kani harnesses for logic that lives inline in async fns of crates/erbium-core/src/dns/mod.rs, lifted verbatim
+// into synchronous fns by /verif/lib/lift.py on every run (C16: cost and limiter decision; C05: bucket indexing).
+#[cfg(kani)]
+mod k {
+    use super::super::*;
+    include!(concat!(env!("ISOMER_ERBIUM_VERIF_DIR"), "/_common.rs"));
+
+    // ------------------------------------------------------------------ should_ratelimit
+    pub struct MsgShim {
+        in_size: usize,
+        remote_addr: NetAddr,
+        cookie: u8,
+    }
+    impl MsgShim {
+        // cookie validation is HMAC-SHA-256 (not decided here): its verdict is an arbitrary input
+        fn validate_cookie(&self) -> CookieStatus {
+            match self.cookie {
+                0 => CookieStatus::Missing,
+                1 => CookieStatus::Bad,
+                _ => CookieStatus::Good,
+            }
+        }
+    }
+    pub struct SerShim(usize);
+    impl SerShim {
+        fn len(&self) -> usize {
+            self.0
+        }
+    }
+    static mut CHARGED: Option<usize> = None;
+    static mut GRANT: bool = false;
+    pub struct RecordingLimiter;
+    impl RecordingLimiter {
+        fn check(&self, _ip: std::net::IpAddr, cost: usize) -> bool {
+            unsafe {
+                CHARGED = Some(cost);
+                GRANT
+            }
+        }
+    }
+    include!(concat!(env!("VERIF_GEN_DIR"), "/should_ratelimit.rs"));
+
+    fn reply(rcode: dnspkt::RCode) -> dnspkt::DNSPkt {
+        use dnspkt::*;
+        DNSPkt {
+            qid: 0, rd: false, tc: false, aa: false, qr: true, opcode: OPCODE_QUERY, cd: false, ad: false, ra: true,
+            rcode, bufsize: 4096, edns_ver: None, edns_do: false,
+            question: Question { qdomain: Domain::from(Vec::new()), qclass: CLASS_IN, qtype: RR_A },
+            answer: Vec::new(), nameserver: Vec::new(), additional: Vec::new(), edns: None,
+        }
+    }
+
+    // Largest REFUSED reply create_in_error can build, derived by hand from create_in_error/add_edns:
+    // 12 header + (<=255 name + 4) question + 11 OPT + NSID (4 + <=39 text of an IPv6 address) + COOKIE (4 + 8 + 32)
+    // + EDE (4 + 2 + <=50 octets of the longest REFUSED reason "Matched ACL does not have permission dns-recursion").
+    const MAX_REFUSED_REPLY: usize = 12 + 259 + 11 + 43 + 44 + 56;
+    // the query that provokes it carries at least: 12 header + question + 11 OPT + NSID request (4) + client cookie (4 + 8)
+    const MIN_QUERY_OVERHEAD: usize = 12 + 11 + 4 + 12;
+    const REPLY_OVER_QUERY: usize = (12 + 11 + 43 + 44 + 56) - MIN_QUERY_OVERHEAD; // reply - query <= this (same question in both)
+
+    /// VERIF: {"p":"C16","tier":"quick","fns":["dns::should_ratelimit (lifted_should_ratelimit: body lifted from source)"],"bounds":"all reply sizes 12..=65535 and query sizes 12..=65535, all rcodes, all three cookie verdicts, both limiter answers","oracle":"a REFUSED without a good cookie is ALWAYS charged, and charged a positive cost, at least a third of its size for every REFUSED reply the server can build (<= 425 octets), so the bucket bounds the REFUSED byte volume: bytes <= 3 * tokens; replies that are not REFUSED, or carry a good cookie, are never limited; the decision is exactly the limiter's answer","stubs":["cookie validation (HMAC) = arbitrary verdict","IpRateLimiter::check = recording stub","log::trace! removed"],"covers":3,"unwind":3}
+    #[kani::proof]
+    #[kani::unwind(3)]
+    fn c16_cost_positive_and_covers_bytes() {
+        use erbium_net::addr::WithPort as _;
+        let reply_len: usize = kani::any();
+        let in_size: usize = kani::any();
+        kani::assume(reply_len >= 12 && reply_len <= 65535 && in_size >= 12 && in_size <= 65535);
+        let rcode: u16 = kani::any();
+        kani::assume(rcode <= 0xfff);
+        let cookie: u8 = kani::any();
+        kani::assume(cookie <= 2);
+        let grant: bool = kani::any();
+        let msg = MsgShim { in_size, remote_addr: std::net::Ipv4Addr::new(192, 0, 2, 7).with_port(5353), cookie };
+        let r = reply(dnspkt::RCode(rcode));
+        unsafe {
+            CHARGED = None;
+            GRANT = grant;
+        }
+        let limited = lifted_should_ratelimit(&msg, &r, &SerShim(reply_len), &RecordingLimiter);
+        let charged = unsafe { CHARGED };
+        kani::cover!(charged.is_some() && limited, "charged and limited");
+        kani::cover!(charged.is_some() && !limited, "charged and sent");
+        kani::cover!(rcode == 5 && cookie == 2, "good cookie");
+        if rcode != 5 || cookie == 2 {
+            assert!(charged.is_none() && !limited, "only REFUSED without a valid cookie is rate limited");
+        } else {
+            assert!(charged.is_some(), "every REFUSED without a valid cookie is charged to the source's bucket");
+            let c = charged.unwrap();
+            assert!(c >= 1, "the charge is positive (a zero charge is an unlimited reply)");
+            if reply_len <= MAX_REFUSED_REPLY {
+                // every REFUSED reply this server can build is at most MAX_REFUSED_REPLY octets (derivation above)
+                assert!(3 * c >= reply_len, "the charge covers at least a third of the bytes sent (bytes <= 3 * tokens)");
+            }
+            assert!(limited == !grant, "limited exactly when the bucket refuses the charge");
+        }
+        std::mem::forget(r);
+    }
+
+    /// VERIF: {"p":"C16","tier":"quick","fns":["dns::should_ratelimit (lifted)","dns::bucket::GenericTokenBucket::check"],"bounds":"every REFUSED reply create_in_error can build (size <= 425 octets, at most 127 octets larger than its query: derivation in the harness source) and every query size; bucket idle for the refill period, any clock","oracle":"the cost charged for it is granted by a bucket that has been idle for MAX_TOKENS/TOKENS_PER_SECOND seconds: a quiet source does get its REFUSED, whatever the size of the reply","stubs":["cookie validation = arbitrary verdict","IpRateLimiter::check = recording stub","bucket clock = harness clock"],"covers":1,"unwind":3}
+    #[kani::proof]
+    #[kani::unwind(3)]
+    fn c16_quiet_source_granted_largest_refused() {
+        use erbium_net::addr::WithPort as _;
+        let reply_len: usize = kani::any();
+        let in_size: usize = kani::any();
+        kani::assume(reply_len >= 12 && reply_len <= MAX_REFUSED_REPLY);
+        kani::assume(in_size >= 17 && in_size <= 65535 && reply_len <= in_size + REPLY_OVER_QUERY);
+        let msg = MsgShim { in_size, remote_addr: std::net::Ipv4Addr::new(192, 0, 2, 7).with_port(5353), cookie: kani::any::<u8>() % 2 };
+        let r = reply(dnspkt::REFUSED);
+        unsafe {
+            CHARGED = None;
+            GRANT = true;
+        }
+        let _ = lifted_should_ratelimit(&msg, &r, &SerShim(reply_len), &RecordingLimiter);
+        let c = unsafe { CHARGED }.unwrap();
+        // an idle bucket: stamp at least B/R seconds in the past
+        let now: u32 = kani::any();
+        let b_over_r = bucket::GenericTokenBucket::verif_refill_period();
+        kani::assume(now >= b_over_r);
+        let s0: u32 = kani::any();
+        kani::assume(s0 <= now - b_over_r);
+        kani::cover!(c > 500, "a large charge");
+        assert!(bucket::GenericTokenBucket::verif_idle_grants(s0, now, c as u32), "idle bucket grants the charge of the largest REFUSED");
+        std::mem::forget(r);
+    }
+
+    // ------------------------------------------------------------------ IpRateLimiter::check (bucket indexing)
+    struct HarnessClock;
+    static mut HNOW: u32 = 0;
+    impl bucket::Clock for HarnessClock {
+        fn now() -> u32 {
+            unsafe { HNOW }
+        }
+    }
+    pub struct CellBucket(std::cell::RefCell<bucket::GenericTokenBucket>);
+    impl CellBucket {
+        fn read(&self) -> std::cell::Ref<'_, bucket::GenericTokenBucket> {
+            self.0.borrow()
+        }
+        fn write(&self) -> std::cell::RefMut<'_, bucket::GenericTokenBucket> {
+            self.0.borrow_mut()
+        }
+    }
+    static mut H1: usize = 0;
+    static mut H2: usize = 0;
+    pub struct LimiterShim([CellBucket; 256]);
+    impl LimiterShim {
+        // SipHash of (seed, ip) abstracted: ANY pair of hash values
+        fn hash_ip(seed: u64, _ip: std::net::IpAddr) -> usize {
+            if seed == 0x1234_5678_9ABC_DEF0 { unsafe { H1 } } else { unsafe { H2 } }
+        }
+    }
+    include!(concat!(env!("VERIF_GEN_DIR"), "/ratelimiter_check.rs"));
+
+    /// VERIF: {"p":"C05","tier":"quick","fns":["dns::IpRateLimiter::check (lifted_ratelimiter_check: body lifted from source)","dns::bucket::GenericTokenBucket::{check,deplete}"],"bounds":"any pair of 64-bit hash values for the two seeds (SipHash abstracted), any charge, first bucket full or drained (so both branches run), fixed clock","oracle":"no out-of-bounds bucket index, no overflow, no RefCell double borrow: the second bucket is always a valid index different from the first","stubs":["hash_ip = arbitrary usize per seed","tokio RwLock = RefCell (single task)","clock = harness clock"],"covers":2,"unwind":3}
+    #[kani::proof]
+    #[kani::unwind(3)]
+    fn c05_ratelimiter_bucket_index_in_bounds() {
+        let lim = LimiterShim(std::array::from_fn(|_| CellBucket(std::cell::RefCell::new(bucket::GenericTokenBucket::new()))));
+        unsafe {
+            H1 = kani::any();
+            H2 = kani::any();
+            HNOW = 1_800_000_000;
+        }
+        let drained: bool = kani::any();
+        if drained {
+            // empty the first bucket so that the second one is consulted
+            let i = unsafe { H1 } % 256;
+            lim.0[i].0.borrow_mut().empty::<HarnessClock>();
+        }
+        let bytes: usize = kani::any();
+        kani::assume(bytes <= 65535);
+        let ok = lifted_ratelimiter_check(&lim, std::net::IpAddr::V4(std::net::Ipv4Addr::LOCALHOST), bytes);
+        kani::cover!(drained && ok && bytes > 0, "second bucket granted");
+        kani::cover!(!drained && ok, "first bucket granted");
+        std::mem::forget(lim);
+    }
+}
